@@ -6,6 +6,7 @@ import CollectionsC.Proofs.PTreeRemove
 import CollectionsC.Proofs.PTreeWfB
 import CollectionsC.Proofs.PTreeDeleteStepR
 import CollectionsC.Proofs.PTreeRemoveWF
+import CollectionsC.Proofs.PTreeStep
 /-! # C03 / C17 — the pointer level of `cc_treetable.c`
 
 `Model/PTree.lean` is the tree as the C code sees it: a heap of nodes `{ key, value, color, left, right,
@@ -63,13 +64,20 @@ the ids — the inductive tree of `Model/TreeTable.lean`.  `WF st := ∃ t, Repr
   (`iter_remove_wf`: the saved `next` stays a node of the tree).
 * **`reachable_states_good`**: every state reached from `new` by `add` (granted or refused) / `remove` /
   `remove_first` / `remove_last`, for any total-order comparator, is `Represents` of a red-black search tree.
+* **the refinement theorem** `pstep_refines` / `phistory_refines_ordmap`: `PTree.step` — every public call with its
+  status, out-value and callback log — returns on a represented red-black search tree exactly what the ordered-map
+  specification `Spec.OrdMap.step` returns on the tree's in-order content, under every refusal schedule, and keeps
+  the invariant: **C03's main statement holds for the pointer-level model**, not only for the inductive tree.
+* `remove_all_wf` (`tree_destroy`: exactly the tree's nodes leave the heap, the sentinel stays),
+  `iterator_enumerates` (whole-walk theorem), `descent_comparisons` (C17's comparator bound for the pointer-level
+  descent).
 * `wfB_sound`: the Bool check the driver evaluates after every call (flag `inv`) implies `WF`.
 
 **Not proved, compared by the harness only**:
-* `remove_all` / `tree_destroy` (`destroyLoop`), the read-only calls (`get`, `contains_key`, first/last/neighbour
-  queries return values; `findLoop` itself is characterised: `Proofs/PTreeRemoveWF.findLoop_rep`), fuel
-  independence of the delete loop (its theorem holds for every fuel ≥ the depth of `x`, which covers the
-  `size + 2` of the code), the out-values and status codes (the pointer-level model has none).
+* fuel independence of the delete loop (its theorem holds for every fuel ≥ the depth of `x`, which covers the
+  `size + 2` of the code); `cc_treetable_destroy`'s last two frees (sentinel, header) and the constructor's three
+  allocations are not in `PT` (the allocation ledger is part of the inductive model's state, `C06Tree`/`C08Tree`);
+  the iterator's `iter_remove` status codes; the set wrapper `cc_treeset` at the pointer level.
 * `T'` of `rebalance_after_insert_rb` is not identified with `Tree.ins` of the inductive model (only: same
   nodes, same in-order content, `RB`); C17's height/comparison bounds stay with `Proofs/TreeTableRB*` on the
   inductive model and the runtime check `toTree pt = inductive tree`.
@@ -764,6 +772,70 @@ theorem reachable_states_good (cmp : Nat → Nat → Int) (hto : TotalOrder cmp)
     Good cmp (ops.foldl (POp.run cmp) PTree.new) :=
   Good.run cmp hto ops
 
+/-! ## The refinement theorem: C03 for the pointer-level model
+
+`PTree.step cmp st op ok` (Model/PTree.lean) is one public call on the pointer-level state with the status code, the
+out-value and the callback log as the C function produces them — `add`, `get`, `contains_key`, `contains_value`,
+`remove`, `remove_first/last`, `remove_all`, `get_first/last_key/value`, `get_greater_than/lesser_than`,
+`foreach_key/value`, `size` — computed from the heap by the loops of the C text; `ok` is the allocator's answer to the
+one request `add` may make.  `PTree.run` is a history with a refusal schedule. -/
+
+/-- **one call at the pointer level refines the ordered-map specification** (`Spec.OrdMap.step`, the specification
+C03's statements are about): same status, out-value, callback log — under refusal `!ok` too — and the new heap
+represents a red-black search tree whose in-order content is the specification's new map -/
+theorem pstep_refines (cmp : Nat → Nat → Int) (hto : TotalOrder cmp) (st : PT) (T : ITree) (h : Represents st T)
+    (hb : Tree.BST cmp T.erase) (hrb : Tree.RB T.erase) (op : OrdMap.Op) (ok : Bool) :
+    (PTree.step cmp st op ok).1 = (OrdMap.step cmp T.erase.toList op (!ok)).1 ∧
+    ∃ T', Represents (PTree.step cmp st op ok).2 T' ∧
+      T'.erase.toList = (OrdMap.step cmp T.erase.toList op (!ok)).2 ∧ Tree.BST cmp T'.erase ∧ Tree.RB T'.erase :=
+  PTree.pstep_refines cmp hto h hb hrb op ok
+
+/-- **C03 for the pointer-level model**: every history from the constructor, under every refusal schedule, returns
+call by call what the ordered map returns, and ends in a well-formed heap holding the map's content -/
+theorem phistory_refines_ordmap (cmp : Nat → Nat → Int) (hto : TotalOrder cmp) (ops : List (OrdMap.Op × Bool)) :
+    (PTree.run cmp PTree.new ops).1 = (OrdMap.run cmp [] ops).1 ∧
+    ∃ T', Represents (PTree.run cmp PTree.new ops).2 T' ∧ T'.erase.toList = (OrdMap.run cmp [] ops).2 ∧
+      Tree.BST cmp T'.erase ∧ Tree.RB T'.erase :=
+  phistory_refines_new cmp hto ops
+
+/-- the same from any represented state -/
+theorem phistory_refines_from (cmp : Nat → Nat → Int) (hto : TotalOrder cmp) (ops : List (OrdMap.Op × Bool))
+    (st : PT) (T : ITree) (h : Represents st T) (hb : Tree.BST cmp T.erase) (hrb : Tree.RB T.erase) :
+    (PTree.run cmp st ops).1 = (OrdMap.run cmp T.erase.toList ops).1 ∧
+    ∃ T', Represents (PTree.run cmp st ops).2 T' ∧ T'.erase.toList = (OrdMap.run cmp T.erase.toList ops).2 ∧
+      Tree.BST cmp T'.erase ∧ Tree.RB T'.erase :=
+  phistory_refines cmp hto ops h hb hrb
+
+/-- **`tree_destroy` / `cc_treetable_remove_all`**: exactly the nodes of the tree leave the heap (each id once: the
+ids are pairwise distinct), the sentinel and every other entry are untouched; the result is the empty table.
+(`cc_treetable_destroy` then frees the sentinel and the header: one more `del`, not modelled in `PT`.) -/
+theorem remove_all_wf (st : PT) (T : ITree) (h : Represents st T) :
+    Represents (removeAll st) .nil ∧
+    (∀ i ∈ T.ids, (removeAll st).heap.m.contains i = false) ∧
+    (∀ j, j ∉ T.ids → (removeAll st).heap.m.contains j = st.heap.m.contains j ∧
+      (removeAll st).heap.get j = st.heap.get j) :=
+  removeAll_represents h
+
+/-- **whole-walk theorem**: `iter_init`, then `iter_next` until `CC_ITER_END`, hands out the entries in order, every
+key once (`iterWalk`: the list of entries handed out); the same walk drives `foreach_key/value`, `contains_value` -/
+theorem iterator_enumerates (st : PT) (T : ITree) (h : Represents st T) :
+    iterWalk st (st.size + 1) (iterInit st) = (toTree st).toList ∧ inorder st = (toTree st).toList := by
+  rw [h.toTree]; exact ⟨iterWalk_rep h, inorder_rep h⟩
+
+/-- **C17 at the pointer level**: on a heap that represents a red-black tree of `n = size` keys — every reachable
+state, by `reachable_states_good` — the descent of `get_tree_node_by_key` / `cc_treetable_add` compares at most
+`2·⌊log₂(n+1)⌋` times (`descentCount`: one comparator call per node visited, = the inductive model's count); `add`
+calls the comparator once more to choose the side of the new leaf: at most `2·⌊log₂(n+1)⌋ + 2` per public call -/
+theorem descent_comparisons (cmp : Nat → Nat → Int) (st : PT) (T : ITree) (h : Represents st T)
+    (hrb : Tree.RB T.erase) (k : Nat) :
+    descentCount cmp st.heap k (st.size + 1) st.root ≤ 2 * Nat.log2 (st.size + 1) ∧
+    descentCount cmp st.heap k (st.size + 1) st.root + 1 ≤ 2 * Nat.log2 (st.size + 1) + 2 :=
+  PTree.descent_comparisons cmp h hrb k
+theorem descent_count_is_model_count (cmp : Nat → Nat → Int) (st : PT) (T : ITree) (h : Represents st T) (k : Nat) :
+    descentCount cmp st.heap k (st.size + 1) st.root = (Tree.find cmp k (toTree st)).2 := by
+  have hf : T.height ≤ st.size + 1 := by have := ITree.height_le_ids T; rw [h.size]; omega
+  rw [h.toTree, h.root]; exact descentCount_rep cmp k h.rep _ hf
+
 /-! ## Non-vacuity of the hypotheses -/
 
 /-- the numeric comparator -/
@@ -881,5 +953,28 @@ example : (∃ T', Represents (removeNode ex5 4) T' ∧ (4 :: T'.ids).Perm T5.id
     exact ⟨T', a, b⟩
   · exact splice_establishes_invariant numCmp numCmp_total ex5 T5 ex5_represents (by decide) (by decide) [.L]
       (z := 2) rfl
+
+/-- the refinement theorem on a concrete history with a refused allocation, replacements, removals of present and
+absent keys, neighbour queries and a final `remove_all`: the pointer-level results are the specification's -/
+example :
+    (PTree.run numCmp PTree.new [(.add 5 50, false), (.add 3 30, false), (.add 8 80, true), (.add 8 81, false),
+      (.add 5 51, true), (.get 5, false), (.greaterThan 5, false), (.lesserThan 3, false), (.remove 4, false),
+      (.remove 5, false), (.removeFirst, false), (.foreachKey, false), (.size, false), (.removeAll, false),
+      (.firstKey, false)]).1 =
+    (OrdMap.run numCmp [] [(.add 5 50, false), (.add 3 30, false), (.add 8 80, true), (.add 8 81, false),
+      (.add 5 51, true), (.get 5, false), (.greaterThan 5, false), (.lesserThan 3, false), (.remove 4, false),
+      (.remove 5, false), (.removeFirst, false), (.foreachKey, false), (.size, false), (.removeAll, false),
+      (.firstKey, false)]).1 :=
+  (phistory_refines_ordmap numCmp numCmp_total _).1
+/-- … and the specification's results there are the expected ones (so the statement is not about empty outputs) -/
+example :
+    ((OrdMap.run numCmp [] [(.add 5 50, false), (.add 8 80, true), (.add 8 81, false), (.get 8, false),
+      (.greaterThan 5, false), (.size, false)]).1.map (fun o => (o.st, o.val))) =
+    [(some .ok, none), (some .errAlloc, none), (some .ok, none), (some .ok, some 81), (some .ok, some 8),
+     (none, some 2)] := by decide
+/-- the five-node heap satisfies the hypotheses of `pstep_refines`, `remove_all_wf`, `iterator_enumerates` and
+`descent_comparisons`; its iterator walk is the expected list -/
+example : iterWalk ex5 (ex5.size + 1) (iterInit ex5) = [(20, 0), (30, 0), (50, 0), (60, 0), (80, 0)] := by
+  rw [(iterator_enumerates ex5 T5 ex5_represents).1, ex5_represents.toTree]; decide
 
 end CC.Properties.C03PTree
